@@ -25,8 +25,9 @@ CONSTANTS
   MaxConnEv = 0
   MaxApi = 0
   StopKinds <- SK_Del
+  OutKinds <- OK_Del
   Faults <- F_Drop
   Dev <- NoDev
 CONSTRAINT NoOverflow
 CHECK_DEADLOCK FALSE
-INVARIANTS NoViolation C08_Mirror C09_Final C18_Consistent C19_Ctx C06_Filled
+INVARIANTS NoViolation C08_Mirror C09_Final C18_Consistent C19_Ctx C06_Filled C03_Bound
